@@ -382,7 +382,8 @@ def job_tail_program(item):
     from vlib.sem import kstep
     name, var, thresholds, N = item
     C = Ctx()
-    text = open(f"/verif/corpus/{name}.prob").read()
+    import os
+    text = open(os.path.join(os.path.dirname(os.path.dirname(os.path.abspath(__file__))), "corpus", f"{name}.prob")).read()
     prog = parse_text(text)
     res = polar_iface.closed_forms(text, [var, f"{var}**2"])
     if res["exc"] or any("cf" not in res["goals"].get(g, {}) for g in (var, f"{var}**2")):
@@ -441,7 +442,7 @@ def main():
     checked = muts = groups = 0
     for (f, arg, name), (st, val) in zip(work, results):
         if st != "ok":
-            run.inconc(f"{name}: job {st} {str(val)[:300] if val else ''}")
+            run.job_failed(name, st, val)
             continue
         run.add_stats(val["stats"])
         checked += val["checked"]
